@@ -4,6 +4,7 @@
 # header ("# expect: <text>") fired. Evidence only: never changes the verdict on /repo. Writes out/<ID>.mutants.json.
 set -uo pipefail
 cd "$(dirname "$0")"
+./trimcache.sh
 . ./env.sh
 ID=${1:?property id}; JOBS=${2:-8}
 REPO=${VERIF_REPO:-/repo}
